@@ -344,7 +344,7 @@ def run(cfg):
     R.rule('R1-term', 'every loop of the search functions has a ranking function', floor=8)
     R.rule('R2', 'every look-up returns the index of the entry that equals the query, else kInvalidIndex (interpreted on abstract registries of 0..9 entries in several orders)', floor=6)
     R.rule('R2-dir', 'the binary search finds every present name and no absent one on every sorted abstract registry', floor=2)
-    R.rule('R2-sorted', 'the binary search is reached only on paths where mIsSorted holds', floor=2)
+    R.rule('R2-sorted', 'findIndexForName answers correctly on every unsorted abstract registry, also above the size at which it starts to bisect (interpreted)', floor=2)
     R.rule('R2-cover', 'isSorted() answers true exactly for the non-empty ascending abstract registries', floor=2)
     R.rule('R3', 'ZoneManagerImpl: a found entry becomes a TimeZone holding that entry and this manager\'s cache, not found becomes the error zone; index and size queries pass the registrar\'s answers on (interpreted)', floor=8)
     insts = sorted({f.inst for f in lib.funcs.get(REG + '::binarySearchByName', []) if f.inst != 'primary'})
@@ -789,7 +789,8 @@ def manager_rules(R, lib):
     MARK = 77
 
     def sgn(ev, recv, args):
-        a, b = args
+        # a name is its rank; a caller's buffer (an object whose content can change between calls) is compared by what it holds now
+        a, b = (x.attrs['rank'] if isinstance(x, AObj) and 'rank' in x.attrs else x for x in args)
         return (a > b) - (a < b)
     intr = {'strcmp_P': sgn, 'ace_common::strcmp_PP': sgn, 'strcmp': sgn, 'ace_time::ZoneProcessorCache::getType': lambda ev, recv, args: MARK}
     for inst in insts:
@@ -821,7 +822,15 @@ def manager_rules(R, lib):
             AEval(module=mod, intrinsics=intr, typed=True, max_steps=200000).call_function(
                 rc[0].name, [n if _it(pt_) else reg for (_pn, pt_) in rc[0].params], recv=registrar, chosen=CxxModule._Fn(rc[0]))
             cache = AObj({}, oid='cache', cls='ace_time::ZoneProcessorCache')
-            mgr = AObj({reg_f[0]: registrar, cache_f[0]: cache}, oid='manager', cls=q)
+            # every other member starts as its in-class initialiser says (null for pointers, zero for numbers)
+            others = {}
+            for c_ in cls[:1]:
+                for x in c_.get('inner', []):
+                    if x.get('kind') == 'FieldDecl' and x['name'] not in (reg_f[0], cache_f[0]):
+                        ini = [y for y in x.get('inner', []) if y.get('kind') not in ('FullComment',) and 'Attr' not in y.get('kind', '')]
+                        v_ = lib.fold_node(ini[0]) if ini else None
+                        others[x['name']] = None if '*' in (nty(x) or '') else (v_ if v_ is not None else 0)
+            mgr = AObj(dict(others, **{reg_f[0]: registrar, cache_f[0]: cache}), oid='manager', cls=q)
 
             def call(m, args):
                 f = lib.fn(q + '::' + m, inst)
@@ -864,6 +873,19 @@ def manager_rules(R, lib):
                     wi = inv if want is None else want
                     if ix != wi:
                         note(f2.name, f2.loc, '[%s] registry of %d entries, %s(%s) gives %s, the registrar says %s' % (tag, n, im, arg, ix[1] if isinstance(ix, tuple) else ix, wi))
+            # the same buffer handed in twice with different text (a line buffer read from a serial port): the second answer is about
+            # the second text
+            if n >= 3:
+                for a_, b_ in ((order[0], order[1]), (order[1], order[1] + 1), (order[0] + 1, order[2]), (order[2], order[2])):
+                    buf = AObj({'rank': a_}, oid='name-buffer', cls='char[]')
+                    call('createForZoneName', [buf])
+                    buf.attrs['rank'] = b_
+                    f, tz = call('createForZoneName', [buf])
+                    want = order.index(b_) if b_ in order else None
+                    exp = 'the error zone' if want is None else 'a zone of type <cache type> for z%d with this cache' % order[want]
+                    if describe(tz) != exp:
+                        note(f.name, f.loc, '[%s] registry of %d entries, createForZoneName() called twice with one buffer that first holds the name of rank %d, then of rank %d: '
+                             'the second result is %s, expected %s' % (tag, n, a_, b_, describe(tz), exp))
             f3, sz = call('registrySize', [])
             if sz != n:
                 note(f3.name, f3.loc, '[%s] registrySize() gives %s for a registry of %d entries' % (tag, sz, n))
